@@ -46,7 +46,7 @@ def render_item(it) -> str:
             s += "|#default=" + render(it["dflt"])
         return s + "}}"
     if k == "inv":  # {{#invoke:mod|fn|args}} (used by C16/C08)
-        s = "{{#invoke:" + it["mod"] + "|" + it["fn"]
+        s = "{{#invoke:" + it.get("mod", "M") + "|" + it["fn"]
         for a in it["args"]:
             s += "|"
             if a["named"]:
